@@ -75,7 +75,7 @@ let field name v =
   | List (Atom n :: xs) when n = name -> List xs
   | v -> raise (Shape ("field " ^ name ^ ": " ^ to_string v))
 
-(* list-valued field: (name x ...) -> [x; ...]   ([field] returns the single x of (name x) unwrapped) *)
+(* list-valued field: always the list of elements, also when there is exactly one *)
 let lfield name v =
   match v with
   | List (Atom n :: xs) when n = name -> xs
